@@ -164,9 +164,17 @@ def checkC16 (g : GenFormat) : Bool := g.statics.all (fun (_, _, isConst) => isC
 def readerFunctions : List (String × List String) :=
   [("Avtp_Can_GetCanPayloadLength", []), ("Avtp_Vss_GetVssPath", ["val"]),
    ("Avtp_Vss_CalcVssPathLength", []), ("Avtp_Vss_GetVSSDataStringArrayLength", []),
-   ("Avtp_Vss_DeserializeStringArray", ["strings"]), ("Avtp_Vss_GetVssData", ["val"])]
+   ("Avtp_Vss_DeserializeStringArray", ["strings"]), ("Avtp_Vss_GetVssData", ["val"]),
+   -- writers: only the PDU / the destination block, never the caller's source objects
+   ("Avtp_Can_CreateAcfMessage", ["pdu"]), ("Avtp_Can_Finalize", ["pdu"]), ("Avtp_Can_SetPayload", ["pdu"]),
+   ("Avtp_CanBrief_SetPayload", ["pdu"]), ("Avtp_CanBrief_Finalize", ["pdu"]),
+   ("Avtp_Vss_Pad", ["vss_pdu"]), ("Avtp_Vss_SetVssPath", ["pdu"]), ("Avtp_Vss_SetVssData", ["pdu"]),
+   ("Avtp_Vss_SerializeStringArray", ["vss_data_string_array"]),
+   ("Vss_ReadBe16", []), ("Vss_ReadBe32", []), ("Vss_ReadBe64", []),
+   ("Vss_WriteBe16", ["p"]), ("Vss_WriteBe32", ["p"]), ("Vss_WriteBe64", ["p"])]
 
-/-- Every reader the file defines stores only through its result parameters
+/-- Every modelled function the file defines stores only through the parameters listed for it
+    (readers: their result objects; writers: the PDU or destination block)
     (`algoWrites` is regenerated from the AST). -/
 def checkReaders (g : GenFormat) : Bool :=
   g.algoWrites.all (fun (fn, ws) =>
